@@ -1208,7 +1208,7 @@ package scipipe
 //@   ensures only-ports: forall k string :: k in ips ==> k in p.inPorts
 //@   ensures valid-items: forall k string :: k in ips ==> validIP(ips[k])
 //@   ensures other-channels-untouched: forall c chan *FileIP :: !fresh(c) && !isInChan(p.inPorts, c) ==> chanRecvN(c) == old(chanRecvN(c)) && chanRecvA(c) == old(chanRecvA(c))
-//@   ensures nothing-sent: forall c chan *FileIP :: !fresh(c) ==> chanSentN(c) == old(chanSentN(c))
+//@   ensures nothing-sent: forall c ref :: !fresh(c) ==> chanSentN(c) == old(chanSentN(c)) && chanClosed(c) == old(chanClosed(c))
 //@   loop 0 invariant fresh: fresh(ips) && ips != nil
 //@   loop 0 invariant vis: forall k string :: $visited[k] ==> k in p.inPorts
 //@   loop 0 invariant done: forall k string :: $visited[k] ==> chanRecvA(p.inPorts[k].Chan) == old(chanRecvA(p.inPorts[k].Chan)) + 1 && chanRecvN(p.inPorts[k].Chan) == old(chanRecvN(p.inPorts[k].Chan)) + ite(old(chanRecvN(p.inPorts[k].Chan)) < chanTotal(p.inPorts[k].Chan), 1, 0)
@@ -1218,7 +1218,7 @@ package scipipe
 //@   loop 0 invariant only-ports: forall k string :: k in ips ==> $visited[k]
 //@   loop 0 invariant valid-items: forall k string :: k in ips ==> validIP(ips[k])
 //@   loop 0 invariant others: forall c chan *FileIP :: !fresh(c) && !isInChan(p.inPorts, c) ==> chanRecvN(c) == old(chanRecvN(c)) && chanRecvA(c) == old(chanRecvA(c))
-//@   loop 0 invariant nothing-sent: forall c chan *FileIP :: !fresh(c) ==> chanSentN(c) == old(chanSentN(c))
+//@   loop 0 invariant nothing-sent: forall c ref :: !fresh(c) ==> chanSentN(c) == old(chanSentN(c)) && chanClosed(c) == old(chanClosed(c))
 
 //@ define wfInParamPorts(m map[string]*InParamPort) bool = m != nil && (forall k string :: k in m ==> m[k] != nil && m[k].Chan != nil) && (forall k1 string, k2 string :: k1 in m && k2 in m && k1 != k2 ==> m[k1].Chan != m[k2].Chan)
 //@ define isInParamChan(m map[string]*InParamPort, c chan string) bool = exists k string :: k in m && m[k].Chan == c
@@ -1233,6 +1233,8 @@ package scipipe
 //@   ensures items-in-arrival-order: forall k string :: k in p.inParamPorts && old(chanRecvN(p.inParamPorts[k].Chan)) < chanTotal(p.inParamPorts[k].Chan) ==> k in params && params[k] == chanInAt(p.inParamPorts[k].Chan, old(chanRecvN(p.inParamPorts[k].Chan)))
 //@   ensures only-ports: forall k string :: k in params ==> k in p.inParamPorts
 //@   ensures other-channels-untouched: forall c chan string :: !fresh(c) && !isInParamChan(p.inParamPorts, c) ==> chanRecvN(c) == old(chanRecvN(c)) && chanRecvA(c) == old(chanRecvA(c))
+//@   ensures nothing-sent: forall c ref :: !fresh(c) ==> chanSentN(c) == old(chanSentN(c)) && chanClosed(c) == old(chanClosed(c))
+//@   loop 0 invariant nothing-sent: forall c ref :: !fresh(c) ==> chanSentN(c) == old(chanSentN(c)) && chanClosed(c) == old(chanClosed(c))
 //@   loop 0 invariant fresh: fresh(params) && params != nil
 //@   loop 0 invariant vis: forall k string :: $visited[k] ==> k in p.inParamPorts
 //@   loop 0 invariant done: forall k string :: $visited[k] ==> chanRecvA(p.inParamPorts[k].Chan) == old(chanRecvA(p.inParamPorts[k].Chan)) + 1 && chanRecvN(p.inParamPorts[k].Chan) == old(chanRecvN(p.inParamPorts[k].Chan)) + ite(old(chanRecvN(p.inParamPorts[k].Chan)) < chanTotal(p.inParamPorts[k].Chan), 1, 0)
